@@ -398,6 +398,15 @@ def guards_present(f, rep, inv):
     for ty in ('cedt::PortAssociation', 'hest::PciDevice', 'rimt::PciDevice', 'viot::PciDevice'):
         r = inv.get(ty, {})
         ok = r.get('device', (0, 255))[1] <= 31 and r.get('function', (0, 255))[1] <= 7
+        adt_ = f.adt(ty)
+        if not ok and adt_ and not {'device', 'function'} <= {fd['name'] for fd in adt_['variants'][0]['fields']} and only_constructed(f, ty):
+            # the numbers are not kept as fields of their own (packed into one word): every value comes out of the
+            # constructor, which must refuse device >= 32 and function >= 8
+            cb_ = fns_of(f, ty).get('new')
+            if cb_:
+                I_ = new_interp(f); a_ = sym_args(I_, cb_); run_fn(I_, cb_['def'], a_)
+                P_ = {n_: v_ for (n_, _), v_ in zip(params_of(cb_), a_)}
+                ok = not I_.tops and 'device' in P_ and 'function' in P_ and refused(I_.guards, cmp('le', P_['device'], C(31))) and refused(I_.guards, cmp('le', P_['function'], C(7)))
         rep.ob('guard-present', ty, ok, '%s no longer bounds device < 32 and function < 8 for every way of constructing it' % ty, detail={'invariant': {k: list(v) for k, v in r.items()}})
     b = f.bodies.get('tpm2::Tpm2::set_log_area')
     if b:
